@@ -938,7 +938,7 @@ class Region:
     def _ws_loop(self, node, pragma):
         depth = pragma.collapse()
         cur = omp_body(node)
-        ivs, names = [], []
+        ivs, names, headers = [], [], []
         for d in range(depth):
             while cur is not None and cur.get("kind") in ("CompoundStmt", "AttributedStmt") and len(kids(cur)) >= 1:
                 ks = [c for c in kids(cur) if not c["kind"].endswith("Attr")]
@@ -963,8 +963,15 @@ class Region:
                     self.func.name, pragma.text))
             ivs.append(iv[0])
             names.append(iv[1])
+            # iteration-space text with the induction variable's name abstracted: two loops have provably the
+            # same trip count only if these agree (used for the schedule(static) same-distribution argument)
+            hdr = " ; ".join("" if x is None else re.sub(r"\s+", " ", self.tu.text_of(x)).strip()
+                             for x in (init, cond, inc))
+            headers.append(re.sub(r"\b%s\b" % re.escape(iv[1]), "@", re.sub(r"^\s*(?:int|long|size_t|unsigned)\s+", "", hdr)))
             cur = body
-        return WSLoop(node, pragma, tuple(ivs), tuple(names))
+        w = WSLoop(node, pragma, tuple(ivs), tuple(names))
+        w.headers = tuple(headers)
+        return w
 
     # -- traversal --------------------------------------------------------------
     def _run(self):
@@ -1886,11 +1893,14 @@ class Region:
         ww, wr = lw - {TID}, lr - {TID}
         if ww and wr:
             # two different worksharing loops: the same thread gets the same iterations only under
-            # schedule(static) with identical clauses (OpenMP 4.5 sec. 2.7.1)
+            # schedule(static) with identical clauses AND the same number of iterations (OpenMP 4.5
+            # sec. 2.7.1); the trip counts are provably equal only when the loop headers agree up to
+            # the name of the induction variable (a flat natm*nrad loop and a natm loop do not)
             la = [l for l in cw.ws if l.id in ww]
             lb = [l for l in cr.ws if l.id in wr]
             if la and lb and la[0].pragma.schedule_kind() == "static" and lb[0].pragma.schedule_kind() == "static" \
-                    and la[0].pragma.collapse() == lb[0].pragma.collapse():
+                    and la[0].pragma.collapse() == lb[0].pragma.collapse() \
+                    and getattr(la[0], "headers", None) == getattr(lb[0], "headers", ()):
                 return "static"
         return False
 
